@@ -192,5 +192,25 @@ func extractStore() {
 	}
 	before("blockOpenResetBeforeSizeTest", funcDecl(fStore, "", "NewBlockHeaderStore"), "resetInterruptedInit", "bhs.WriteHeaders", "NewBlockHeaderStore")
 	before("filterOpenResetBeforeSizeTest", funcDecl(fStore, "", "NewFilterHeaderStore"), "resetInterruptedInit", "fhs.WriteHeaders", "NewFilterHeaderStore")
+	// the read side: ancestor ranges and the block locator
+	if fd := funcDecl(fStore, "blockHeaderStore", "FetchHeaderAncestors"); fd != nil {
+		body := squeeze(src(fd.Body))
+		layout("ancestorsRangeEndsAtHash", strings.Contains(body, "endHeight,err:=h.heightFromHash(stopHash)") &&
+			strings.Contains(body, "startHeight:=endHeight-numHeaders") && strings.Contains(body, "h.readHeaderRange(startHeight,endHeight)"),
+			"FetchHeaderAncestors reads the range [height(stopHash) - numHeaders, height(stopHash)]")
+	} else {
+		fail("headerfs/store.go: blockHeaderStore.FetchHeaderAncestors")
+	}
+	if fd := funcDecl(fStore, "blockHeaderStore", "blockLocatorFromHash"); fd != nil {
+		body := squeeze(src(fd.Body))
+		layout("locatorStepsBackDoubling", strings.Contains(body, "decrement:=uint32(1)") &&
+			strings.Contains(body, "forheight>0&&len(locator)<wire.MaxBlockLocatorsPerMsg{") &&
+			strings.Contains(body, "iflen(locator)>10{decrement*=2}") &&
+			strings.Contains(body, "ifdecrement>height{height=0}else{height-=decrement}") &&
+			strings.Contains(body, "locator=append(locator,hash)"),
+			"blockLocatorFromHash: the given hash, then one step back for the first ten entries, doubling afterwards, floor at genesis, at most wire.MaxBlockLocatorsPerMsg entries")
+	} else {
+		fail("headerfs/store.go: blockHeaderStore.blockLocatorFromHash")
+	}
 	facts["store"] = st
 }
